@@ -44,8 +44,15 @@ type G struct {
 
 func (g *G) pick(xs []string) string { return xs[g.R.IntN(len(xs))] }
 
+// bigNums: rarely used literals at the int64 / 2^53 / int32 boundaries, in
+// integer and in floating-point spelling.
+var bigNums = []string{"9007199254740993", "9007199254740992.0", "9007199254740992", "9223372036854775807", "9.223372036854775807e18", "2147483648", "1e19", "4611686018427387904"}
+
 func (g *G) num() *N {
 	s := g.pick(g.C.Nums)
+	if g.R.IntN(24) == 0 {
+		s = g.pick(bigNums)
+	}
 	neg := g.R.IntN(6) == 0
 	return NumFromText(s, neg)
 }
@@ -121,7 +128,12 @@ func (g *G) Step(depth int, inFilter, inSub bool) *N {
 			}
 		case 17:
 			if g.C.KeyValue && !g.C.OnlyAccessors {
-				return &N{K: KMethod, S: "keyvalue"}
+				kv := &N{K: KMethod, S: "keyvalue"}
+				if g.R.IntN(2) == 0 {
+					// usually followed by one of the members of the triple
+					kv.Next = &N{K: KKey, S: g.pick([]string{"value", "value", "key", "id"})}
+				}
+				return kv
 			}
 		case 18:
 			if g.C.Methods && !g.C.OnlyAccessors {
